@@ -1846,7 +1846,7 @@ func (self *LockDB) AddExpried(lock *Lock) {
 	if !lock.isAof && lock.aofTime != 0xff {
 		if self.currentTime-lock.startTime >= int64(lock.aofTime) {
 			for i := uint8(0); i < lock.locked; i++ {
-				_ = lock.manager.PushLockAof(lock, 0)
+				_ = lock.manager.PushLockAofWithoutAck(lock, 0)
 			}
 		}
 	}
@@ -2007,7 +2007,7 @@ func (self *LockDB) AddMillisecondExpried(lock *Lock) {
 		lock.longWaitIndex = 0
 	}
 	if !lock.isAof && lock.aofTime == 0 {
-		_ = lock.manager.PushLockAof(lock, 0)
+		_ = lock.manager.PushLockAofWithoutAck(lock, 0)
 	}
 }
 
@@ -2758,7 +2758,7 @@ func (self *LockDB) wakeUpWaitLock(lockManager *LockManager, waitLock *Lock, ser
 		isRequireAof := (lockManager.currentLock != nil && lockManager.currentLock.isAof) || (lockManager.currentData != nil && lockManager.currentData.isAof)
 		lockManager.ProcessLockData(waitLock.command, waitLock, false)
 		if isRequireAof && lockManager.currentData != nil && !lockManager.currentData.isAof {
-			_ = lockManager.PushLockAof(waitLock, 0)
+			_ = lockManager.PushLockAofWithoutAck(waitLock, 0)
 		}
 	}
 	waitLockProtocol, waitLockCommand := waitLock.protocol, waitLock.command
